@@ -71,6 +71,7 @@ THEOREMS = [
     'CpProofs.C08.C08_update_global_section',
     'CpProofs.C08.C08_update_file_eq_dict',
     'CpProofs.C08.C08_update_later_wins',
+    'CpProofs.C08.C08_setitem',
     'CpProofs.C08.C08_env_live_all',
     'CpProofs.C08.C08_env_live_production',
     'CpProofs.C08.C08_call_splat_keeps',
@@ -99,43 +100,69 @@ THEOREMS = [
 LEVEL = 'proof'
 TECHNIQUE = ('Lean 4 proof: set_conf over the object trail refined to a level-by-level declarative merge (induction over the '
              'segment list), find_config = longest section prefix, toolbox on/off and arguments read off the effective config, '
-             'unrepr round trip by structural induction over literal values; tied to the code by a differential run')
+             'histories of requests and config steps over a world model with explicit copy sites (independence of history), '
+             'NamespaceSet / registered namespace handlers, cherrypy.config.update with environments, the INI layer, unrepr '
+             'round trip and evaluation (calls, subscripts, operators) by structural induction; tied to the code by a '
+             'differential run over single requests, histories against long-lived applications and generated inputs for '
+             'every model function')
 LEVEL_TEXT = ('Proved in Lean for every object graph without _cp_dispatch, every application config, global config and path: '
               'request.config = global, then per level of segments ++ [index] the _cp_config of the object found there and the '
               'section named by that path prefix, the default handler\'s _cp_config right after its owner; hence deeper wins, '
               'section beats _cp_config at the same level, and a section whose name is not a path prefix of the request can be '
-              'removed without effect (string-prefix siblings included; this scoping theorem is also proved for all graphs, '
-              'dispatchers included). find_config returns the value of the longest prefix '
+              'removed without effect (string-prefix siblings included; this scoping theorem and the flattening over the final '
+              'trail are also proved for all graphs, dispatchers included). find_config returns the value of the longest prefix '
               'section holding the key. A tool is set up iff the effective tools.<t>.on is truthy, with exactly the effective '
-              'tools.<t>.* entries minus on/priority. unrepr(repr(v)) = v for all literal values built from None/bool/int/float/'
-              'complex/str/bytes/list/tuple/dict/dotted names whenever the generated builder table has the node classes needed '
-              '(Sub for complex numbers with negative imaginary part: holds on the repaired tree, proved false on a tree without '
-              'build_Sub). Partial: trees with _cp_dispatch, the other namespaces, Call/Subscript evaluation are covered by the '
-              'correspondence run only.')
-LEVEL_NOTE = ('Trusted: Lean kernel, the hand models Dispatch/Config/Unrepr as validated by the differential run, the serialised '
-              'getattr view, CPython\'s parser (ast.parse output is an input of the model, and toAst is validated against it).')
+              'tools.<t>.* entries minus on/priority; a tools.<t>.handler(**kw) page handler calls the tool with kw overlaid by the '
+              'effective tools.<t>.* of THIS request. For every history of requests (any applications, paths, order), app.merge and '
+              'cherrypy.config.update steps, each request observes a function of the configuration steps before it and the request '
+              'alone (requests leave the world unchanged; the two copy sites this rests on are measured on the live code and are a '
+              'proof obligation; without the copy the statement is proved false by a 2-request witness). NamespaceSet.__call__: '
+              'every entry ns.k reaches exactly the handler registered for ns, as (k, value), in registration x dict order; '
+              'context-manager handlers are entered first and exited exactly once, told about an exception, which propagates iff '
+              'not swallowed; the request serves hooks, request, response, error_page and last tools (live tables); effects of the '
+              'registered handlers (request.body.*, response.headers.*, hooks.<point>.*, error_page, server.<name>.on, '
+              'engine.<plugin>.on, log, checker). cherrypy.config.update: only [global] of a sectioned input counts, file = dict, '
+              'environment entries fill in the keys the update does not set (live table), later updates win. INI layer: case of '
+              'option names kept, DEFAULT inherited and overridden, values without % literal. unrepr(repr(v)) = v for all literal '
+              'values built from None/bool/int/float/complex/str/bytes/list/tuple/dict/dotted names whenever the generated builder '
+              'table has the node classes needed; calls: name=value beats **mapping wherever it stands, **mapping never overrides, '
+              'callee gets exactly the built arguments; subscripts with negative indices; Add/Mult on sequences. Partial: the '
+              'level-by-level form needs graphs without _cp_dispatch; a starred call argument is appended as one value on the '
+              'unrepaired tree (finding F31, dichotomy theorem); symbolic applications, float products outside 3 decimals, duplicate '
+              'keys in dict displays and configparser\'s line syntax are covered by the correspondence run only.')
+LEVEL_NOTE = ('Trusted: Lean kernel, the hand models Dispatch/Config/ConfigHist/ConfigNs/ConfigUpdate/ConfigIni/Unrepr as validated '
+              'by the differential run, the serialised getattr view, CPython\'s parser (ast.parse output is an input of the model, '
+              'and toAst is validated against it), configparser\'s reader (the INI model starts from the parsed document).')
 TRUSTED_BASE = [
     'Python attribute lookup on the generated objects (serialised view) and dict semantics (update, insertion order)',
     'CPython parser: ast.parse(text) is serialised into the model; toAst(v) is checked against ast.parse(repr(v)) on every run',
-    'configparser (INI syntax, interpolation) is exercised, not modelled',
+    'configparser line syntax (sections, `name = value`): the INI model starts from the document the file denotes; '
+    'interpolation, DEFAULT and optionxform are modelled and compared with Parser and the stock parser on every run',
+    'the functions a config value calls (the model says which function gets which arguments; the harness carries the call out)',
 ]
 ASSUMPTIONS = [
-    'config values are None / bool / int / str in the merge model (live objects are not modelled)',
+    'config values are None / bool / int / str in the merge model (lists / dicts are opaque texts there; live objects are not modelled)',
     'floats in the unrepr model are decimals with at most 3 places; signed zeros, inf and nan are excluded (repr does not round-trip in Python either)',
     'sets are outside the statement\'s list of literal kinds (the builder rejects them; proved and checked, not counted as a failure)',
+    'the copy sites of the world model (Tool._merged_args, set_conf) are measured by a probe call / one request per run',
 ]
 RULE = ('random dispatcher-free (and some popargs/custom-dispatch) object trees x assignments of a small key set to random '
         'subsets of the scopes {global, app section per path prefix incl. punctuated / string-prefix-sibling / trailing-slash / '
-        'index-suffixed names, class _cp_config per node, handler and default-handler _cp_config} x paths inside/outside the '
-        'scopes; sections supplied as dict or as INI text; find_config on random section sets; random literal values (nested, '
-        'negative, complex, dotted names) through unrepr / INI; non-trivial = at least one generated key is set in some scope on '
-        'the path; distinct = distinct (tree, config, path) / (sections, path, key) / literal text')
+        'index-suffixed names, class _cp_config per node, handler and default-handler _cp_config, tool decorators, handler-tool '
+        'page handlers with kwargs} x paths inside/outside the scopes; sections supplied as dict, INI text or file name; '
+        'HISTORIES: 6-20 steps against one or two applications on one root (requests in any order, merge, remount, global '
+        'update, rebind of dotted-name targets, in-place mutation of list/dict values reached through any holder); find_config on '
+        'random section sets; random literal values and random expressions (calls with * / ** / keywords, subscripts, + - *) '
+        'through unrepr / INI; generated NamespaceSets, namespace-handler entries, update sequences with environments, INI '
+        'documents with DEFAULT / interpolation; non-trivial = at least one generated key is set in some scope on the path (or '
+        'the input reaches the modelled function); distinct = distinct (tree, configs, steps so far) / (sections, path, key) / text')
 
 PLAIN_KEYS = ['k1', 'k2', 'ns.k3', 'Ns.K4']
 TOOL_KEYS = ['tools.p1.on', 'tools.p1.x', 'tools.p2.on', 'tools.p2.y', 'tools.p2.priority', 'tools.p1.z.w']
 RARE_KEYS = ['tools.staticdir.dir']
 HOOK_KEY = 'hooks.on_start_resource.c08'                          # a bare hook attached by the hooks namespace
-NS_KEYS = ['request.c08attr', 'response.headers.X-C08', HOOK_KEY]   # consumed by the request / response / hooks namespaces
+CUSTOM_KEY = 'c08req.flag'                                          # a custom namespace registered on the Request class
+NS_KEYS = ['request.c08attr', 'response.headers.X-C08', HOOK_KEY, CUSTOM_KEY]   # consumed by the request / response / hooks / custom namespaces
 ALL_TOOL_KEYS = ['tools.%s.%s' % (t, a) for t in ('p1', 'p2') for a in ('on', 'x', 'y', 'priority', 'z.w')]
 GEN_KEYS = PLAIN_KEYS + ALL_TOOL_KEYS + RARE_KEYS + NS_KEYS + ['tools.staticdir.section']
 PROBE_TOOLS = ['p1', 'p2']
@@ -143,7 +170,15 @@ ON_VALUES = [True, True, True, False, 0, 1, '', 'yes', None]
 
 # the probe tools (cherrypy.tools.p1 / p2 / h1) and their journal are shared with the history runner
 TOOL_JOURNAL = H.TOOL_JOURNAL
-ensure_tools = H.ensure_tools
+CUSTOM_JOURNAL = []
+
+
+def ensure_tools():
+    H.ensure_tools()
+    from cherrypy import _cprequest
+    if 'c08req' not in _cprequest.Request.namespaces:
+        # a custom namespace, registered the documented way (on the request class): gets its entries per request
+        _cprequest.Request.namespaces['c08req'] = lambda k, v: CUSTOM_JOURNAL.append((k, v))
 
 
 def probe_copy_sites():
@@ -387,8 +422,10 @@ def run_config_case(case):
         for p, m in case['reqs']:
             TOOL_JOURNAL[:] = []
             NS.HOOK_JOURNAL[:] = []
+            CUSTOM_JOURNAL[:] = []
             o = runner.get(p, m)
             o['hook_ran'] = len(NS.HOOK_JOURNAL)
+            o['custom_ns'] = list(CUSTOM_JOURNAL)
             req = runner.requests[0] if runner.requests else None
             cfg = getattr(req, 'config', None) if req is not None else None
             o['config'] = None if cfg is None else {k: cfg[k] for k in GEN_KEYS if k in cfg}
@@ -532,6 +569,10 @@ def oracle_config(built, case, o, req):
         if o.get('hook_ran', want_hook) != want_hook:
             bad.append(('the bare hook ran %d time(s) although the effective config %s the entry %s'
                         % (o['hook_ran'], 'holds' if want_hook else 'does not hold', HOOK_KEY), 'hooks_namespace'))
+        want_custom = [('flag', o['config'][CUSTOM_KEY])] if CUSTOM_KEY in o['config'] else []
+        if o.get('custom_ns', want_custom) != want_custom:
+            bad.append(('the custom namespace handler got %s, the effective config holds %s' % (o['custom_ns'], want_custom),
+                        'custom_namespace'))
     # tools: run exactly when the effective config turns them on, with the merged arguments
     if o['status'] != 500 or o['ran']:
         want = []
@@ -1283,7 +1324,7 @@ def has_dup_keys(tree):
 
 def supported_by_builder(tree, reprconf):
     """every node class of the expression has a `build_<Class>` method (call plumbing aside)"""
-    for n in ast.walk(tree):
+    for n in ast.walk(getattr(tree, 'body', tree)):
         cls = n.__class__.__name__
         if cls in ('Load', 'keyword', 'Starred'):
             continue
@@ -1607,13 +1648,13 @@ def _worker(args):
     sub.lean = _WORKER_LEAN[0]
     COV.start()
     check_config_cases(sub, [gen_config_case(sub.rng, i) for i in range(n)])
-    H.check_hist_cases(sub, [H.gen_hist_case(sub.rng, i) for i in range(n // 2)])
+    H.check_hist_cases(sub, [H.gen_hist_case(sub.rng, i) for i in range(n // 4)])
     NS.check_ns_cases(sub, [NS.gen_ns_case(sub.rng) for _ in range(n * 2)])
     NS.check_eff_cases(sub, [NS.gen_eff_case(sub.rng) for _ in range(n)])
     U.check_upd_cases(sub, [U.gen_upd_case(sub.rng) for _ in range(n // 2)])
     INI.check_ini_cases(sub, [INI.gen_ini_case(sub.rng) for _ in range(n)])
     check_fc_cases(sub, [gen_fc_case(sub.rng) for _ in range(n * 4)])
-    check_literal_cases(sub, gen_literal_cases(sub.rng, n * 4))
+    check_literal_cases(sub, gen_literal_cases(sub.rng, n * 3))
     return _export(sub)
 
 
